@@ -218,7 +218,7 @@ Lemma shift_doctype_spec z : lx_wf z -> 9 <= mark z ->
   exists r, shift_doctype z = Some r /\ shifted z r.
 Proof.
   intros H Hm. pose proof (wf_range z H) as Hr. unfold shift_doctype, mark in *.
-  destruct (scan_doctype_lx z 0 false H) as (n & f & Hn & H0 & H1 & H2 & H3).
+  destruct (scan_doctype_lx z H) as (n & f & Hn & H0 & H1 & H2 & H3).
   rewrite Hn. cbn [option_bind fst snd].
   assert (A : adv z (mv z n)) by (apply adv_mv; assumption).
   pose proof (adv_wf _ _ H A) as W.
